@@ -257,9 +257,9 @@ def _genuine(stream, delivered_views):
 
 
 def _view_matches_xml(v, el, top=True):
-    """The library parser ignores unknown attributes and a vector's own text; so a delivered
-    message is the parse of an element iff tag, every attribute it kept, its text (when it kept
-    one) and all children agree."""
+    """The library parser ignores unknown attributes, a vector's own text and whatever is nested inside a leaf
+    element; so a delivered message is the parse of an element iff tag, every attribute it kept, its text (when it
+    kept one) and all children agree."""
     tag, attrs, text, kids = v
     if el.tag != tag:
         return False
@@ -271,6 +271,10 @@ def _view_matches_xml(v, el, top=True):
         if t != text:
             return False
     sub = list(el)
+    if not top and not kids:
+        # a leaf (one*/def* element): the parser keeps its attributes and leading text and ignores anything nested inside
+        # it, exactly as it ignores unknown attributes; the delivered leaf still is the parse of this element
+        return True
     if len(sub) != len(kids):
         return False
     return all(_view_matches_xml(kv, ke, False) for kv, ke in zip(kids, sub))
